@@ -89,7 +89,7 @@ func Run(r *ev.Run, replay string) {
 	concDone := make(chan string, 1)
 	go func() { concDone <- runConcurrentPart(r) }()
 
-	n := r.N(100, 1600)
+	n := r.N(100, 4000)
 	shards := r.N(6, 14)
 	var wg sync.WaitGroup
 	for sh := 0; sh < shards; sh++ {
@@ -170,8 +170,6 @@ func shrinkWorthwhile(class string) bool {
 }
 
 var sampled sync.Map
-
-func dbgOnce(k string) bool { _, done := sampled.LoadOrStore(k, true); return done }
 
 var (
 	maxMu      sync.Mutex
@@ -272,21 +270,8 @@ func runCase(r *ev.Run, e *env, c Case, shrink bool) {
 		d := differential(reg, ac, lc, budget, npmVK(root[0], root[1], resolve.Concrete))
 		r.Eval(1)
 		r.Count("diff:resolutions", 1)
-		if os.Getenv("C18_DEBUG") != "" {
-			fmt.Printf("CALLS %d %d %v\n", d.api.calls, d.local.calls, d.skipped)
-			if d.skipped == "budget-both" && !dbgOnce("dbg-exh") {
-				sr := shrinkRegistry(reg, root, 400, func(s *Registry) bool {
-					su := Encode(s)
-					return resolveOnce(su.Client(nil), 3000, npmVK(root[0], root[1], resolve.Concrete)).exhausted
-				})
-				fmt.Printf("EXHAUSTED root %v\n%s\n", root, sr.describe())
-			}
-		}
 		if d.skipped != "" {
 			r.Count("diff:skipped:"+d.skipped, 1)
-			if os.Getenv("C18_DEBUG") != "" && d.skipped == "error-both-different-text" {
-				fmt.Printf("ERROR-BOTH api=%q local=%q\n", d.api.enc, d.local.enc)
-			}
 		}
 		if len(v.Bundled) > 0 {
 			r.Count("feature:root-with-bundles", 1)
